@@ -60,7 +60,10 @@ TEXTS = {
                 "Invariant QInv over the mailbox: no duplicates, disjoint from handled, every 'before' message is "
                 "handled or strictly ahead in the queue; sigma.hlog = s.log.",
         "design_ref": "DESIGN.md §5 C01",
-        "note": "Trusted: Lean kernel + axioms; futures-channel FIFO modelled in Model/Chan.lean and validated by trace "
+        "note": "All submission paths of the public API are in the model and the harness, including "
+                "WeakSender::try_force_send (operation kind tryForce). The chain also runs monC07 / monC07o: an incarnation is "
+                "only replaced by a requested restart. "
+                "Trusted: Lean kernel + axioms; futures-channel FIFO modelled in Model/Chan.lean and validated by trace "
                 "acceptance; the freshness hypothesis is checked per trace (monWf01).",
         "technique": "Lean 4 proof (queue-order invariant by induction over all runs) + checked trace correspondence",
     },
@@ -77,7 +80,9 @@ TEXTS = {
                 "'a late await returns Ok after a graceful end' is proved under noCancelAfterStopped (C02t_holds) and "
                 "checked directly on real traces.",
         "design_ref": "DESIGN.md §5 C02",
-        "note": "Partial: monC02t (one clause) is conditional in the proof, unconditional on traces. Trusted: Lean "
+        "note": "monC02t (a late await after a graceful end returns Ok) is false of unguarded runs and proved for guarded "
+                "runs (C02g_holds), which are what the acceptor accepts. 'Awaits complete with the termination result' is "
+                "carried in the chain by monC04 (announcement clauses) and monC06 (both proved). Trusted: Lean "
                 "kernel + axioms; oneshot reply channels modelled as op states, validated by trace acceptance.",
         "technique": "Lean 4 proof (op-table / mailbox coupling invariant, quiescence lemma) + checked trace correspondence",
     },
@@ -93,8 +98,9 @@ TEXTS = {
                 "returns Ok; monC06_split: monC06 and monC06t together accept exactly what the one-piece formulation "
                 "accepts.",
         "design_ref": "DESIGN.md §5 C06",
-        "note": "Partial: the send clause between failure and task end is trace-checked only (false of the model, "
-                "which separates the two events); multi-actor clauses via C08 / C16 and per-actor acceptance.",
+        "note": "The send clause between failure and task end is false of unguarded runs and proved for guarded runs "
+                "(C06r_holds / C06g_holds), which are what the acceptor accepts; the chain also runs monC17 (join yields "
+                "None), monC10 (timers stop firing) and monC03; multi-actor clauses via C08 / C16 and per-actor acceptance.",
         "technique": "Lean 4 proof (failed-phase / latch / op-state invariants) + checked trace correspondence with fault injection",
     },
     "C08": {
@@ -135,8 +141,11 @@ TEXTS = {
         "note": "The second half - 'when the last strong handle is dropped it first handles every message already "
                 "accepted and then terminates gracefully' - is theorem C05q_holds (monC05q; same wiring hypothesis, "
                 "operation ids fresh): at every quiescent point of every run, no strong holder + no stop + no "
-                "failure implies terminated, gracefully, with every acknowledged send handled. Registry / child-list "
-                "/ broker as holders: C08, C16 (C16_lifetime), C09. Trusted: Lean kernel + axioms; extractor facts "
+                "failure implies terminated, gracefully, with every acknowledged send handled. Calls whose future was "
+                "dropped are drained too and never skipped (theorem C05d_holds, for runs in which only calls whose "
+                "submission went through are dropped - the guard the acceptor applies). Child list and broker "
+                "subscriptions as holders are exercised inside this check (actor-tree family through the system acceptor, "
+                "broker family through the subscriber-lifetime driver); registry: C08. Trusted: Lean kernel + axioms; extractor facts "
                 "holds/upgradeReq; Arc/Weak reference counting modelled as owner sets, validated by trace acceptance.",
         "technique": "Lean 4 proof (owner-set simulation + inductive 'nothing owns a sender' invariant) + regenerated wiring + checked trace correspondence",
     },
@@ -333,8 +342,9 @@ TEXTS = {
         "design_ref": "DESIGN.md §5 C12, §4, §6",
         "note": "Trusted: Lean kernel; axioms propext/Classical.choice/Quot.sound only; hand-written model of "
                 "futures-channel mpsc + hannibal loop validated by trace acceptance (sampling, not proof); translator; "
-                "harness executor (single-thread, poll-granular atomicity). 'every send still returns' is carried "
-                "as enabledness in the model (dropRx / deq unpark) not as a temporal theorem.",
+                "harness executor (single-thread, poll-granular atomicity). 'every send still returns once the actor "
+                "catches up or terminates' is theorem C12q_holds (no send outstanding at a quiescent point; fresh operation "
+                "ids) plus clause (d) of monC02, both also run on the traces.",
         "technique": "Lean 4 proof (invariant by induction over model runs) + regenerated wiring + checked trace correspondence",
     },
 }
